@@ -27,6 +27,7 @@ EXPLANATION = (
     "path; define/load_definitions dispatch every parsed definition; the disk-cache key covers every loaded source, the "
     "numeric type and the version, and a loaded cache is installed; solve_dependencies raises on cycles. Does not decide "
     "that a whole file is interpreted as written or order independence (needs execution).")
+EXPLANATION += ' Also decided (rules added after the second round of seeded changes): parse_file and parse_string pass the same parser class, config (`cfg or self._default_config`), cache and options, the registry builds its parser with ParserConfig(non_int_type) and define/load_definitions go through it; to_units_container rejects a numeric factor and to_dimension_container is built from that scale-checked container; @alias spellings are indexed like inline aliases.'
 
 LATENT = {
     ("UnitDefinition.__post_init__", "Base unit definitions cannot have a scale"): "latent: the error object is returned instead of raised, but `_is_base` is then never set and the adder fails with AttributeError at load time; no definition is given a meaning",
